@@ -122,6 +122,14 @@ func init() {
 		"internal/bytealg.IndexByte":       ext۰bytes۰IndexByte,
 		"internal/bytealg.IndexString":     ext۰strings۰Index,
 		"internal/bytealg.CountString":     ext۰bytealg۰CountString,
+		"internal/bytealg.MakeNoZero": func(fr *frame, a []value) value { // strings.Builder.Grow
+			n := a[0].(int)
+			b := make([]value, n)
+			for k := range b {
+				b[k] = uint8(0)
+			}
+			return b
+		},
 		"internal/stringslite.Clone":       func(fr *frame, a []value) value { return a[0] },
 		"strings.Clone":                    func(fr *frame, a []value) value { return a[0] },
 		"strconv.cloneString":              func(fr *frame, a []value) value { return a[0] },
@@ -655,6 +663,14 @@ func ext۰mapstructure۰WeakDecode(fr *frame, args []value) value {
 	}
 	cell := out.v.(*value)
 	str := in.v
+	if it, isI := pt.Elem().Underlying().(*types.Interface); isI {
+		// decodeBasic: the string is stored if it is assignable to the interface type
+		if it.NumMethods() == 0 {
+			store(pt.Elem(), cell, iface{types.Typ[types.String], str})
+			return iface{}
+		}
+		return errorValue(fr, "1 error(s) decoding:\n\n* '' expected type '"+typeString(pt.Elem())+"', got 'string'")
+	}
 	tb, ok := pt.Elem().Underlying().(*types.Basic)
 	if !ok {
 		panic(abortPath{"inconclusive", fmt.Sprintf("mapstructure.WeakDecode string -> %v not modelled", pt.Elem())})
